@@ -58,7 +58,7 @@ def path_arg(path, pathkind):
 
 def save_lmpdat(ctx, fs, real, via, style, name, prefix, fault=None, pathkind="std"):
     """Write `real` with the real writer through the chosen branch.  Returns the durable text."""
-    path = "/sim/%s.lmpdat" % name if pathkind != "odd_ext" else "/sim/%s.lmpdat.%s" % (name, ("bak", "cif", "0", "data")[len(name) % 4])
+    path = ("/sim/%s.v2.lmpdat" if pathkind == "dotted" else "/sim/%s.lmpdat") % name if pathkind != "odd_ext" else "/sim/%s.lmpdat.%s" % (name, ("bak", "cif", "0", "data")[len(name) % 4])
     wscript = fault or {}
     if via == "path":
         fs.script = dict(fs.script, write=wscript)
